@@ -8,6 +8,7 @@ package idl
 
 //@ pred wf(p) = p != nil && 0 <= p.position && p.position <= len(p.input)
 //@ pred wf1(p) = p != nil && 0 <= p.position && p.position <= len(p.input) + 1
+//@ pred cmtEnd(p, start) = (p.position > start && p.input[p.position - 1] == 13) ? p.position - 1 : p.position
 //@ pred lower(c) = 97 <= c && c <= 122
 //@ pred upper(c) = 65 <= c && c <= 90
 //@ pred digit(c) = 48 <= c && c <= 57
@@ -57,11 +58,11 @@ package idl
 //@   ensures [layout C05 C06] forall i int :: old(p.position) <= i && i < p.position && i < len(p.input) ==> ws(p.input[i]) || incomment(p, old(p.position), i)
 //@   ghostset at call(Reset)#1 : gLC = ""
 //@   ghostset at call(WriteByte)#1 : gLC = gLC + "\n"
-//@   ghostset at call(WriteString)#1 : gLC = gLC + p.input[start:p.position]
+//@   ghostset at call(WriteString)#1 : gLC = gLC + p.input[start:cmtEnd(p, start)]
 //@   hypothesis [model-buffer-len] at call(Len)#1 : res0 == len(gLC)
 //@   assert [doc-reset C05] at call(Reset)#1 : p.position >= 1 && p.input[p.position - 1] == 10
 //@   assert [doc-sep C05] at call(WriteByte)#1 : arg1 == 10 && len(gLC) > 0
-//@   assert [doc-text C05] at call(WriteString)#1 : arg1 == p.input[start:p.position] && gpos < start && start <= gpos + 2 && p.input[gpos] == 35 && (p.position >= len(p.input) || p.input[p.position] == 10) && (start == gpos + 2 || start >= len(p.input) || p.input[start] == 10)
+//@   assert [doc-text C05] at call(WriteString)#1 : arg1 == p.input[start:cmtEnd(p, start)] && gpos < start && start <= gpos + 2 && p.input[gpos] == 35 && (p.position >= len(p.input) || p.input[p.position] == 10) && (start == gpos + 2 || start >= len(p.input) || p.input[start] == 10)
 //@   ensures [doc-keep C05] (forall i int :: old(p.position) <= i && i < p.position && i < len(p.input) ==> p.input[i] != 35 && p.input[i] != 10) ==> gLC == old(gLC)
 //@   loop 1 invariant [doc-keep C05] (forall i int :: old(p.position) <= i && i < p.position && i < len(p.input) ==> p.input[i] != 35 && p.input[i] != 10) ==> gLC == old(gLC)
 //@   ghostset at call(next)#1 : gpos = p.position - 1
